@@ -15,7 +15,7 @@ CLAIMED = {
          "TLA+ reference grammar (Wire!Decode) evaluated by TLC as oracle; spec->impl vectors; impl->spec trace validation"),
  "C04": ("4.C04", "Wire!ToBytes / WireLen and the buffer-protocol plan (Message!CopyPlan, PlanWithinBounds) model-checked over MC_Message; limit-1/limit/limit+1 replayed for every emitted transition; recorded to_bytes* calls with the cfg(coap_lite_verif) copy events validated by Trace_Wire (offset+n <= capacity per raw copy, exact length, exact bytes)",
          "TLA+ model checked by TLC; spec->impl replay; impl->spec trace validation with copy-event hooks"),
- "C05": ("4.C05", "Registry.tla (IANA tables) checked for well-formedness; TLC emits the complete expected table (65536 numbers x option/content-format/observe, 256 codes with class/name/text/is-error, 256 header bytes, every registry name); every row compared with the crate both ways",
+ "C05": ("4.C05", "Registry.tla (IANA tables) checked for well-formedness; TLC emits the complete expected table (65536 numbers x option/content-format/observe, 256 codes with class/name/text/is-error, 256 header bytes, every registry name, the catch-all names, numbers beyond the registries' width); every row compared with the crate both ways, through the conversion functions and through the message-level accessors; MC_CodeText: Header::set_code on every text of up to 4/5 characters (accepted with the parsed code, or precondition violated)",
          "TLA+ registry module; TLC-generated complete tables replayed into the code (exhaustive)"),
  "C06": ("4.C06", "MC_OptionValue: round trip, minimality and decode-totality theorems over all 8/16-bit values, boundary 32/64-bit values, all byte strings <= 2 (<= 3 over a 32-byte alphabet, thorough); complete tables replayed; random typed builder sequences recorded and validated by Trace_Wire element by element",
          "TLA+ operators checked by TLC; TLC-generated tables replayed; impl->spec trace validation"),
